@@ -1896,6 +1896,32 @@ impl RdfExpressionPredicate {
                     Some(Value::Bool(!decisive))
                 }
             }
+            FilterExpression::Binary {
+                left,
+                op: BinaryFilterOp::In,
+                right,
+            } => {
+                // `?x IN (a, b, ...)`: true if ?x equals some item; an item that cannot be
+                // evaluated only matters when no other item matches (SPARQL 17.4.1.9).
+                let FilterExpression::List(items) = right.as_ref() else {
+                    return None;
+                };
+                let left_val = self.eval_expr(left, chunk, row)?;
+                if matches!(left_val, Value::Null) {
+                    return None;
+                }
+                let mut failed = false;
+                for item in items {
+                    match self.eval_expr(item, chunk, row) {
+                        Some(Value::Null) | None => failed = true,
+                        Some(v) if rdf_values_equal(&left_val, &v) => {
+                            return Some(Value::Bool(true));
+                        }
+                        Some(_) => {}
+                    }
+                }
+                if failed { None } else { Some(Value::Bool(false)) }
+            }
             FilterExpression::Binary { left, op, right } => {
                 let left_val = self.eval_expr(left, chunk, row)?;
                 let right_val = self.eval_expr(right, chunk, row)?;
